@@ -227,15 +227,22 @@ Stuck == ~AllDone /\ \A p \in Procs : ~CanStep(p)
 \* Partial-order reduction.  A step is SAFE when it commutes with every step of every other goroutine
 \* and can never be disabled by one: channel operations of a deterministic goroutine on channels that
 \* have one writer and one reader (a Kahn network with bounded channels).  Not safe: the scan's poll of
-\* the context, the steps of limit and sink (they cancel it), and sends into a channel that has several
-\* writers (the drain goroutines of the concurrent both, the consumers of aggregate).  Executing one
+\* the context while a cancel may still arrive, the step of limit / sink that cancels it, and sends into
+\* a channel that has several writers (the drain goroutines of the concurrent both, the consumers of
+\* aggregate).  Executing one
 \* safe step and nothing else is an ample set (the state graph is acyclic), so every deadlock and
 \* every final state of the full interleaving is still reached.  Properties about intermediate
 \* states (Released) are checked on the unreduced runs.
-Safe(p) == LET q == P(p) IN
-  /\ q.k \notin {"sink", "limit"}
-  /\ q.k = "gen" => st[p].pc = "send"
-  /\ q.k \in {"map", "collect"} => q.closes
+\* can the context still be cancelled?  (monotone: once FALSE it stays FALSE)
+CancelPossible ==
+  \/ (cfg.k # Never /\ ~cancelC /\ seen < cfg.k) \/ (cfg.k = 0 /\ ~cancelC)
+  \/ \E p \in Procs : P(p).k = "limit" /\ ~Done(p) /\ st[p].b <= P(p).l
+Safe(p) == LET q == P(p)  pc == st[p].pc IN
+  CASE q.k = "sink"  -> pc = "recv" /\ (cfg.k = Never \/ seen + 1 # cfg.k)      \* not the receive that cancels
+    [] q.k = "limit" -> pc = "send" \/ st[p].b # q.l                             \* not the receive that cancels
+    [] q.k = "gen"   -> pc = "send" \/ Cancelled \/ ~CancelPossible             \* the poll has one possible outcome
+    [] q.k \in {"map", "collect"} /\ ~q.closes -> pc \notin {"send", "emit"}     \* out has other writers
+    [] OTHER -> TRUE
 SafeNow == { p \in Procs : Safe(p) /\ CanStep(p) }
 Least(S) == CHOOSE x \in S : \A y \in S : x <= y
 
